@@ -290,13 +290,22 @@ func c08Classify(p c08Prog, variants []c08Obs) (key, detail string) {
 		if sameSet {
 			return "validateScope-error-order", "the same parse errors are reported in different orders (validateScope ranges over the Go map scope.vars)"
 		}
+		allCrash := true
+		for _, v := range variants {
+			if !strings.HasPrefix(v.Parse, "GOPANIC internal error") || !strings.Contains(v.Parse, "incompatible types") {
+				allCrash = false
+			}
+		}
+		if allCrash {
+			return "wrapAny-panic-location-order", "Parse crashes in wrapAny on every run (internal error, the C03/C04 defect) but the location named in the crash message differs: with two or more offending values the first one met by `for key, val := range mapLit.Pairs { … wrapAny(val, sub) }` wins"
+		}
 		if any(func(o c08Obs) bool { return strings.Contains(o.Parse, "incompatible types") }) {
 			return "parseMapLiteral-combineTypes-order", "Parse crashes (wrapAny internal error) or accepts depending on the order in which parseMapLiteral hands the value types of mapLit.Pairs to combineTypes"
 		}
 		return "parse-result-differs", "parse errors differ between repetitions"
 	case differ["format"]:
 		return "format-differs", "Format() output differs between repetitions"
-	case p.Site == "combine-all" || any(func(o c08Obs) bool { return strings.Contains(o.Err+o.SVG, "incompatible types") }):
+	case p.Family == "map-literal-types" || any(func(o c08Obs) bool { return strings.Contains(o.Err+o.SVG, "incompatible types") }):
 		return "parseMapLiteral-combineTypes-order", "the element type that parseMapLiteral computes for a map literal (visible through typeof, or a wrapAny internal error while parsing) depends on the order in which the value types of mapLit.Pairs reach combineTypes"
 	case any(func(o c08Obs) bool { return strings.Contains(o.Err+o.SVG, "Equals called with") }):
 		return "mapValEquals-panic-or-false", "map == map panics (internal error in Equals on an ill-typed value) or yields false depending on which key mapVal.Equals visits first"
@@ -765,8 +774,9 @@ func genCombine(rng *rand.Rand) c08Prog {
 		}
 	}
 	b.WriteString("}\nprint m\nprint (typeof m)\n")
-	return c08Prog{Family: "map-literal-types", Src: b.String(), N: n, Site: "combine-all", Fixed: fixed,
-		Case: LstOf(append([]SX{Sym("combine-all")}, tys...)).String()}
+	// oracle only: combineTypes was rewritten in /repo 0e214ac and is called in source order since e6ebb6a
+	_ = tys
+	return c08Prog{Family: "map-literal-types", Src: b.String(), N: n, Dep: fixed, Fixed: fixed}
 }
 
 func genEquals(rng *rand.Rand) c08Prog {
@@ -776,7 +786,7 @@ func genEquals(rng *rand.Rand) c08Prog {
 	}
 	var m1, m2 strings.Builder
 	var ents []SX
-	ill := rng.Intn(2) == 0
+	ill := false // `x := [] * 3` is an array since /repo f8788c6: no ill-typed value can be built any more
 	dep := false
 	hasFalse, hasPanic := false, false
 	for i := 0; i < n; i++ {
@@ -799,7 +809,7 @@ func genEquals(rng *rand.Rand) c08Prog {
 		}
 	}
 	dep = hasFalse && hasPanic
-	src := "x := [] * 3\nprint \"x\"\nx = x\nm1 := {" + m1.String() + "}\nm2 := {" + m2.String() + "}\nprint (len m1) (len m2)\nprint (m1 == m2)\n"
+	src := "m1 := {" + m1.String() + "}\nm2 := {" + m2.String() + "}\nprint (len m1) (len m2)\nprint (m1 == m2)\n"
 	return c08Prog{Family: "map-equality", Src: src, N: n, Dep: dep, Site: "equals",
 		Case: LstOf(append([]SX{Sym("equals")}, ents...)).String()}
 }
@@ -945,9 +955,11 @@ func genC08(rng *rand.Rand) c08Prog {
 	return genMalformed(rng, bases[rng.Intn(len(bases))])
 }
 
-// corpus: the Coq _refuted witnesses as programs (8 entries, so that the
-// runtime's random start makes a miss practically impossible), plus the
-// inputs of DESIGN §7 rows 6-8
+// corpus: the Coq _before_fix_refuted witnesses as programs (8 entries, so that
+// the runtime's random start makes a miss practically impossible), plus the
+// inputs of DESIGN §7 rows 6-8. All five sites are fixed in /repo: the model in
+// force says "order independent" on every witness, so any variation here is a
+// VIOLATION (property) and a model-says-independent correspondence failure.
 // Witness holds the Coq _refuted witness of the same shape (2-3 entries): the
 // model in force is asked whether it is order dependent on it.
 var c08Corpus = []c08Prog{
@@ -959,8 +971,9 @@ var c08Corpus = []c08Prog{
 		Witness: `(fontProps ("size" s "a") ("style" n 1))`},
 	{Family: "corpus-combineTypes", N: 8, Dep: true, Fixed: true, Src: "x := [1]\nm := {a:[2] b:x c:[\"a\"] d:[3] e:x f:[4] g:x h:[5]}\nprint m (typeof m)\n",
 		Witness: `(combine-all (arr 0 num) (arr 1 num) (arr 0 str))`},
-	{Family: "corpus-mapEquals", N: 8, Dep: true, Src: "x := [] * 3\nm1 := {a:x b:1 c:x d:1 e:x f:1 g:x h:1}\nm2 := {a:2 b:3 c:2 d:3 e:2 f:3 g:2 h:3}\nprint (m1 == m2)\n",
+	{Family: "corpus-mapEquals", N: 8, Src: "m1 := {a:0 b:1 c:0 d:1 e:0 f:1 g:0 h:1}\nm2 := {h:3 g:2 f:3 e:2 d:3 c:2 b:3 a:2}\nprint (m1 == m2) (m1 != m2)\ntest m1 m2\n",
 		Witness: `(equals ("a" () 2) ("b" 1 3))`},
+	{Family: "corpus-wrapAny-panic-location", N: 8, Src: "x := [1]\nm := {a:[2] b:x c:x d:x e:x f:x g:x h:[\"a\"]}\nprint m (typeof m)\n"},
 	{Family: "corpus-design-7-6", N: 2, Dep: true, Src: "a := 1\nb := 2\n"},
 	{Family: "corpus-design-7-8", N: 3, Dep: true, Src: "font {size:\"a\" weight:\"b\" style:1}\n"},
 }
@@ -1021,9 +1034,9 @@ func c08CheckBatch(cfg Config, r *Result, model *Model, progs []c08Prog, inproc 
 				Detail: "a program of a family that is meant to be accepted by the parser was rejected (harness generator out of date?): " + variants[0].Parse, Input: p})
 		}
 		if p.Dep {
-			stats["dependent-by-construction"]++
+			stats["formerly-order-dependent"]++
 			if len(variants) > 1 {
-				stats["dependent-detected"]++
+				stats["formerly-order-dependent-still-varies"]++
 			}
 		}
 		if len(r.Samples) < 4 && (p.Family == "map-literal-effects" || p.Family == "valid-mixed" || p.Family == "unused-vars" || p.Family == "font-bad-props") {
@@ -1075,7 +1088,7 @@ func c08CheckBatch(cfg Config, r *Result, model *Model, progs []c08Prog, inproc 
 				}
 				if p.Site == "combine-all" && o == "panic" && p.Fixed {
 					// wrapAny's internal-error panic on a Fixed value (C03/C04's defect, DESIGN §7 row 2):
-					// whether it happens is the order dependence classified above; the panic itself is not C08's
+					// since e6ebb6a it happens deterministically (source order); the panic itself is not C08's
 					stats["combine-wrapAny-panic-with-fixed-type"]++
 					continue
 				}
@@ -1096,7 +1109,7 @@ func c08CheckBatch(cfg Config, r *Result, model *Model, progs []c08Prog, inproc 
 }
 
 func runC08(cfg Config, r *Result) {
-	r.Rule = "programs from 9 families biased to expose Go map order (4-8 unused variables per scope; map literals with 4-8 values of which most print; font with 3-8 properties of which several are bad; map literals mixing literal/variable/empty composite types; == on maps incl. an ill-typed value; maps printed/compared/tested/copied/iterated; 3-6 event handlers with 8 delivered events; mixed valid programs with seeded rand, read, drawing → SVG; token-level mutations of all of these); each program is parsed/formatted/run/rendered 8x in-process and 3x in fresh processes and all observables (parse error text and order, Format(), class, error text, platform trace, SVG+stdout of pkg/cli, name sets) must be identical; non-trivial = order-relevant map with >= 4 entries, or a mixed/malformed program; distinct = distinct program text. combineTypes: 1-5 random types (depth <= 3, Fixed flags, EMPTY sentinels) compared exactly with the model through the hook."
+	r.Rule = "programs from 9 families biased to expose Go map order (4-8 unused variables per scope; map literals with 4-8 values of which most print; font with 3-8 properties of which several are bad; map literals mixing literal/variable/empty composite types; == on maps incl. an ill-typed value; maps printed/compared/tested/copied/iterated; 3-6 event handlers with 8 delivered events; mixed valid programs with seeded rand, read, drawing → SVG; token-level mutations of all of these); each program is parsed/formatted/run/rendered 8x in-process and 3x in fresh processes and all observables (parse error text and order, Format(), class, error text, platform trace, SVG+stdout of pkg/cli, name sets) must be identical; non-trivial = order-relevant map with >= 4 entries, or a mixed/malformed program; distinct = distinct program text."
 	if cfg.Replay != "" {
 		c08Replay(cfg, r)
 		return
@@ -1145,7 +1158,7 @@ func runC08(cfg Config, r *Result) {
 	}
 
 	// 2. generated programs
-	n := cfg.N(420, 9000)
+	n := cfg.N(800, 12000)
 	batch := 300
 	for done := 0; done < n; done += batch {
 		m := batch
@@ -1159,8 +1172,7 @@ func runC08(cfg Config, r *Result) {
 		c08CheckBatch(cfg, r, model, progs, c08InProc, stats)
 	}
 
-	// 3. combineTypes, exact
-	c08CombineDirect(cfg, r, model)
+	// 3. (the exact combineTypes comparison was dropped with /repo 0e214ac: see coq/Perm.v)
 
 	// 4. the hypothesis of the copy-loop theorems on the real tables: map key == Name field
 	for k, g := range evaluator.BuiltinDecls().Globals {
@@ -1178,9 +1190,9 @@ func runC08(cfg Config, r *Result) {
 		r.Distribution["stat:"+k] = stats[k]
 	}
 	reps := c08InProc + c08Procs
-	r.Note("miss probability of the repetition oracle for one order-dependent program whose relevant Go map has n entries (Go 1.23 runtime, n <= 8: iteration = rotation of the bucket from a uniformly random slot, empty slots fall through to the first entry): P(all %d repetitions deliver the same order) = ((9-n)/8)^%d + (n-1)/8^%d: n=4 %.2g, n=5 %.2g, n=6 %.2g, n=7 %.2g, n=8 %.2g; generators use n=8 in 50%% and n>=6 in 80%% of the programs. Observed: %d of %d by-construction order-dependent programs showed a variation.",
+	r.Note("miss probability of the repetition oracle for one order-dependent program whose relevant Go map has n entries (Go 1.23 runtime, n <= 8: iteration = rotation of the bucket from a uniformly random slot, empty slots fall through to the first entry): P(all %d repetitions deliver the same order) = ((9-n)/8)^%d + (n-1)/8^%d: n=4 %.2g, n=5 %.2g, n=6 %.2g, n=7 %.2g, n=8 %.2g; generators use n=8 in 50%% and n>=6 in 80%% of the programs. %d programs of the shapes that varied before the fixes (7307e12 af9ee3d 62da4a1 e6ebb6a abeb6de) were run; %d of them still vary (each one is a VIOLATION).",
 		reps, reps, reps, c08MissProb(4, reps), c08MissProb(5, reps), c08MissProb(6, reps), c08MissProb(7, reps), c08MissProb(8, reps),
-		stats["dependent-detected"], stats["dependent-by-construction"])
+		stats["formerly-order-dependent"], stats["formerly-order-dependent-still-varies"])
 	r.Note("the runtime only produces rotations of the bucket order, the theorems quantify over all permutations (a superset); correspondence checks observed ⊆ model outcomes: %d programs compared, in %d the model predicts order dependence and in %d of those the implementation was seen to vary.",
 		r.Validated, stats["model-says-order-dependent"], stats["model-says-order-dependent-and-observed-varies"])
 	r.Note("Program.CalledBuiltinFuncs / Evaluator.EventHandlerNames are compared as sets (their slice order follows map iteration: varied in %d programs; the only consumer, pkg/wasm, uses them as sets) — registered as OrderLeaksIntoNameListOnly, not reported as a violation.", stats["name-list-order-varied"])
